@@ -146,7 +146,7 @@ def WfPattern (p : Bytes) : Prop := ∀ i : Nat, p[i]? = some (58 : Byte) → 0 
 
 def C16_statement : Prop :=
   ∀ (routes : List Route) (authOk : Nat → Bool) (method target : Bytes),
-    (∀ r ∈ routes, WfPattern r.path) → 0 ∉ target →
+    (∀ r ∈ routes, WfPattern r.path) →
     handleRequest routes authOk method target =
       specHandle routes authOk method (stripQueryFragment target)
 
